@@ -157,6 +157,14 @@ var hdrBlocks = []string{"", "Range: bytes=0-3\r\n", "Range: bytes=\r\n", "Range
 	"X-Big: " + strings.Repeat("a", 70000) + "\r\n", "Bad Header: x\r\n", ": empty-name\r\n", "X-NUL: a\x00b\r\n", "Content-Length: -1\r\n", "Content-Length: 5\r\nContent-Length: 6\r\n", "Transfer-Encoding: chunked\r\nContent-Length: 3\r\n",
 	"Transfer-Encoding: gzip\r\n", "Expect: 100-continue\r\nContent-Length: 3\r\n", "Upgrade: websocket\r\nConnection: upgrade\r\n", "Proxy-Authorization: Basic !!!\r\n", "Accept-Encoding: gzip\r\n", "Host: second.test\r\n"}
 
+// Range and If-Range are drawn independently of each other and of the other header blocks: the
+// deeper range paths need a usable Range together with every shape of validator.
+var rangeLines = []string{"", "", "Range: bytes=0-3\r\n", "Range: bytes=0-3\r\n", "Range: bytes=2-\r\n", "Range: bytes=-4\r\n", "Range: bytes=9-9\r\n", "Range: bytes=50-60\r\n", "Range: bytes=0-0,2-3\r\n",
+	"Range: bytes=\r\n", "Range: bytes=3-1\r\n", "Range: items=0-3\r\n", "Range: bytes=0-3\r\nRange: bytes=4-5\r\n", "Range: bytes=18446744073709551616-\r\n", "range: BYTES=0-3\r\n"}
+var ifRangeLines = []string{"", "", "", "If-Range: \"x\"\r\n", "If-Range: \"y\"\r\n", "If-Range: W/\"x\"\r\n", "If-Range: Mon, 02 Jan 2006 15:04:05 GMT\r\n", "If-Range: Sunday, 06-Nov-94 08:49:37 GMT\r\n",
+	"If-Range: Sun Nov  6 08:49:37 1994\r\n", "If-Range: garbage\r\n", "If-Range: v1\r\n", "If-Range: \"\r\n", "If-Range: \r\n", "If-Range: W/\r\n", "If-Range: \"x\", \"y\"\r\n", "If-Range: \"x\"\r\nIf-Range: \"y\"\r\n",
+	"If-Range: Mon, 02 Jan 2006 15:04:05 GMT extra\r\n", "If-Range: 0\r\n", "If-Range: -1\r\n", "If-Range: " + strings.Repeat("\"", 400) + "\r\n"}
+
 var bodies = []string{"", "", "", "abc", "3\r\nabc\r\n0\r\n\r\n", "zz\r\n", "5\r\nab"}
 
 var originAnswers = []string{"", "", "", "@416-unless-plain@", "@416-unless-plain@", "HTTP/1.1 200 OK\r\nContent-Length: 3\r\n\r\nabc", "HTTP/1.1 200 OK\r\nContent-Length: 10\r\n\r\nabc", "HTTP/1.1 200 OK\r\nContent-Length: -5\r\n\r\nabc", "HTTP/1.1 200 OK\r\nContent-Length: 3\r\nContent-Length: 4\r\n\r\nabc",
@@ -174,7 +182,7 @@ func TestRawExchanges(t *testing.T) {
 			Transport: rapid.SampledFrom([]string{"plain", "plain", "tunnel"}).Draw(t, "transport"),
 			Line:      rapid.SampledFrom(reqLines).Draw(t, "line"),
 			HostHdr:   rapid.SampledFrom([]string{"@", "@", "@", "-", "", "other.test", "@, @", "[::1", "a b"}).Draw(t, "host"),
-			Headers:   rapid.SampledFrom(hdrBlocks).Draw(t, "h1") + rapid.SampledFrom(hdrBlocks).Draw(t, "h2"),
+			Headers:   rapid.SampledFrom(hdrBlocks).Draw(t, "h1") + rapid.SampledFrom(hdrBlocks).Draw(t, "h2") + rapid.SampledFrom(rangeLines).Draw(t, "range") + rapid.SampledFrom(ifRangeLines).Draw(t, "if-range"),
 			Body:      rapid.SampledFrom(bodies).Draw(t, "body"),
 			Origin:    rapid.SampledFrom(originAnswers).Draw(t, "origin"),
 			Connect:   rapid.SampledFrom(connectTargets).Draw(t, "connect"),
@@ -187,6 +195,9 @@ func TestRawExchanges(t *testing.T) {
 			c.HostHdr = "@"
 			c.Headers = rapid.SampledFrom([]string{"Range: bytes=0-3\r\n", "Range: bytes=2-\r\n", "Range: bytes=-4\r\n", "Range: bytes=50-60\r\n", "Range: bytes=0-3\r\nIf-Range: \"x\"\r\n",
 				"Range: bytes=0-3\r\nX-mode: retry\r\n", "If-None-Match: \"x\"\r\n", "If-Modified-Since: Mon, 02 Jan 2006 15:04:05 GMT\r\n", "Cache-Control: no-cache\r\n", ""}).Draw(t, "wf-headers")
+			if rapid.Bool().Draw(t, "wf-range-product") {
+				c.Headers = rapid.SampledFrom(rangeLines).Draw(t, "wf-range") + rapid.SampledFrom(ifRangeLines).Draw(t, "wf-if-range") + rapid.SampledFrom([]string{"", "", "X-mode: retry\r\n", "Cache-Control: no-cache\r\n"}).Draw(t, "wf-misc")
+			}
 			c.Body = ""
 			c.Connect = "@"
 		}
